@@ -2,15 +2,29 @@ package verifkit
 
 import (
 	"fmt"
+	"os"
+	"sort"
 	"strings"
+	"sync"
 	"testing"
 	"testing/synctest"
+	"time"
 )
 
 // InBubble runs f inside a synctest bubble and returns a recovered panic value, if any. The
 // panic synctest raises when goroutines of the code under test are still parked at the end of a
 // bubble is reported as leftover=true (it is not a verdict by itself).
+//
+// A goroutine waiting for a sync.Mutex is not "durably blocked", so a mutex deadlock inside the
+// code under test makes synctest.Wait() hang instead of returning. A watchdog goroutine outside
+// the bubble therefore looks at goroutine dumps when a bubble has not finished after
+// VERIF_STUCK_AFTER real seconds (default 240): if the same set of repository goroutines, all
+// waiting for locks and none running, shows in four consecutive dumps, it records a deadlock
+// violation for the current case and ends the process; anything else is recorded as inconclusive.
 func InBubble(t *testing.T, f func()) (panicked any, leftover bool) {
+	done := make(chan struct{})
+	go bubbleWatchdog(done)
+	defer close(done)
 	defer func() {
 		if r := recover(); r != nil {
 			panicked = r
@@ -24,3 +38,92 @@ func InBubble(t *testing.T, f func()) (panicked any, leftover bool) {
 
 // Wait is synctest.Wait.
 func Wait() { synctest.Wait() }
+
+var (
+	curMu       sync.Mutex
+	curReporter *Reporter
+	curCase     string
+)
+
+func setCurrent(r *Reporter, id string) {
+	curMu.Lock()
+	curReporter, curCase = r, id
+	curMu.Unlock()
+}
+
+func lockWaitSet() (set string, allLocks bool, n int) {
+	var blocked []string
+	allLocks = true
+	for _, g := range Goroutines() {
+		fn := ""
+		for i, f := range g.Funcs {
+			if i < len(g.Files) && IsRepoSource(g.Files[i]) {
+				fn = f
+				break
+			}
+		}
+		if fn == "" {
+			continue
+		}
+		switch {
+		case IsLockWait(g.Reason):
+			blocked = append(blocked, fmt.Sprintf("goroutine %s [%s] in %s", g.ID, g.Reason, fn[strings.LastIndex(fn, "/")+1:]))
+		case g.Reason == "running" || g.Reason == "runnable" || g.Reason == "syscall" || strings.HasPrefix(g.Reason, "sleep"):
+			// a goroutine of the code under test that runs, or that sleeps on the bubble's clock while
+			// (possibly) holding a lock, could still release the waiters: no deadlock verdict
+			allLocks = false
+		}
+	}
+	sort.Strings(blocked)
+	return strings.Join(blocked, "; "), allLocks, len(blocked)
+}
+
+func bubbleWatchdog(done chan struct{}) {
+	after := 240 * time.Second
+	if s := os.Getenv("VERIF_STUCK_AFTER"); s != "" {
+		if d, err := time.ParseDuration(s + "s"); err == nil {
+			after = d
+		}
+	}
+	select {
+	case <-done:
+		return
+	case <-time.After(after):
+	}
+	prev, stable := "", 0
+	verdict, detail := "inconclusive", ""
+	for poll := 0; poll < 8; poll++ {
+		select {
+		case <-done:
+			return
+		default:
+		}
+		set, allLocks, n := lockWaitSet()
+		if set == prev && allLocks && n >= 1 {
+			stable++
+			if stable >= 3 {
+				verdict = "violation"
+				detail = fmt.Sprintf("the run stopped making progress: goroutines of the code under test wait for each other's locks (identical in 4 consecutive goroutine dumps 3 s apart, none of them running): %s", set)
+				break
+			}
+		} else {
+			stable = 0
+		}
+		prev = set
+		time.Sleep(3 * time.Second)
+	}
+	curMu.Lock()
+	r, id := curReporter, curCase
+	curMu.Unlock()
+	if r == nil {
+		fmt.Fprintln(os.Stderr, "verifkit: bubble stuck and no reporter; lock waiters:", prev)
+		os.Exit(3)
+	}
+	if verdict == "violation" {
+		r.Violation(id, os.Getenv("VERIF_PROP")+":deadlock", detail, nil)
+	} else {
+		r.Inconclusive(id, "the bubble did not finish within "+after.String()+" and the goroutine dumps show no stable lock cycle; lock waiters: "+prev)
+	}
+	r.Close()
+	os.Exit(0)
+}
